@@ -3,6 +3,7 @@
 from __future__ import annotations
 
 import ast
+import itertools
 import json
 import os
 import pathlib
@@ -236,6 +237,15 @@ def _search(rec, ctx):
             for v in PUNCT:
                 check(rec, {"src": "".join(toks[:i] + [v, " "] + toks[i:]), "stream": "diagnostic-neighbourhood"})
 
+    # every sequence of up to three clauses after 'try:' (and a sample of four): most are rejected, each by one of the
+    # hand-written invalid_try_stmt / invalid_except_stmt alternatives, some only for an earlier py_version
+    TRY_CLAUSES = ["except:", "except E:", "except E as e:", "except* E:", "except* (A, B) as g:", "except*:", "except A, B:", "except* A, B:", "else:", "finally:", "except E as e.f:", "except E as (a, b):"]
+    trng = ctx.rng("try-clauses")
+    tseqs = [s for n in (1, 2, 3) for s in itertools.product(TRY_CLAUSES, repeat=n)] + [tuple(trng.choice(TRY_CLAUSES) for _ in range(4)) for _ in range(2000 if ctx.thorough else 300)]
+    for j, seq in enumerate(ctx.shard(tseqs)):
+        body = "\n    b\n" if j % 3 else " b\n"
+        check(rec, {"src": "try:\n    a\n" + "".join(c + body for c in seq), "stream": "try-clause-sequences", "options": j % 4 == 0})
+
     # deep nests whose innermost level is closed by the wrong bracket (or not at all): rejected, and quickly
     OPEN = [("$(a ", ")"), ("![a ", "]"), ("$[a ", "]"), ("!(a ", ")"), ("@$(a ", ")"), ("(", ")"), ("[", "]"), ("{", "}"), ("f(", ")"), ("$(echo @(", "))"), ("f!(", ")"), ("${", "}"), ("(a, ", ")")]
     for o, c in ctx.shard(OPEN):
@@ -246,7 +256,6 @@ def _search(rec, ctx):
                 check(rec, {"src": ("x = " if o[0] in "([{f" else "") + o * d + "a" + wrong + c * d + "\n", "stream": "deep-nest-wrong-closer"})
 
     # conversion names of f-string fields: every string over {s, r, a, z} up to length 3, plus a few words
-    import itertools
 
     for name in ctx.shard(["".join(t) for n in (1, 2, 3) for t in itertools.product("sraz", repeat=n)] + ["repr", "R", "1", "_", "é", "if"]):
         for tmpl in ("f'{x!N}'", "f'{x!N:>4}'", "f'{x=!N}'", "f'{x:{y!N}}'", "f'''{x!N\n}'''", "f'{x! N}'"):
